@@ -376,6 +376,9 @@ def emit_fn(u, it, opts, header_lines, spec_lines, canary, recursor_file, loop_l
         if opts.get('looppat') and opts['looppat'].replace('~', ' ') != pat:
             raise X.AnchorLost('%s: %s loop #%d pattern is %r, contract expects %r' % (u.file, name, k, pat, opts['looppat'].replace('~', ' ')))
         tail = opts.get('tail', '').replace('~', ' ')
+        lb, c18 = X.r18_body_use(lb)
+        if c18:
+            counts['R18'] = counts.get('R18', 0) + c18
         body = '{\n' + lb[1:-1] + '\n' + tail + '\n}'
         counts['R16'] = counts.get('R16', 0) + 1
         if not header_lines:
